@@ -186,6 +186,13 @@ def run(ctx):
         except Exception as e:
             ctx.fail("parse-print:exception", desc, s, repr(e))
         for kind, meth in (("CRefP", "refactor_phase"), ("CRefS", "refactor_sign")):
+            # history on ONE object: observe, extract the factor, observe again (no stale matrix/str)
+            h = mk(*a)
+            h.as_matrix(); str(h); h.is_hermitian()
+            fh = getattr(h, meth)()
+            if (not np.array_equal(fh * dense(h.as_matrix()), R) or not np.array_equal(dense(h.as_matrix()), ref_matrix(list(h.z), list(h.x), h.q))
+                    or str(h) != str(mk(list(h.z), list(h.x), h.q)) or bool(h.is_hermitian()) != (h.q % 2 == 0)):
+                ctx.fail(meth + ":object-observed-before-extraction-is-stale-afterwards", desc, "f * new = old, views follow q", repr(fh))
             t = mk(*a)
             f = getattr(t, meth)()
             add("%s %s %s %s" % (kind, p3(*a), ct.zi(f), p3_of(t)), dict(desc, op=meth), nt)
@@ -388,6 +395,10 @@ def replay(ctx, data):
             t = PauliString(*a)
             f = getattr(t, meth)()
             bad |= not np.array_equal(f * dense(t.as_matrix()), R)
+            h = PauliString(*a)
+            h.as_matrix(); str(h)
+            fh = getattr(h, meth)()
+            bad |= not np.array_equal(fh * dense(h.as_matrix()), R)
     elif inp.get("kind") == "history":
         op = PauliOperator()
         added = 0
